@@ -145,6 +145,14 @@ def compared_attrs(fn):
                 mism_ok = rejects(cmp_node, "T" if e.opcode == "!=" else "F")
         if helper is None:
             miss_ok = rejects(missing_node, "T") if missing_node is not None else False
+            if not miss_ok:
+                # the open result may be tested more than once (reported, then rejected): any `x < 0` test between the open and
+                # the read whose true branch returns an error before the next attribute counts
+                for n in conds:
+                    if o.begin < n.ast.begin < rsite.begin:
+                        e_ = n.ast.strip()
+                        if e_.kind == "BinaryOperator" and e_.opcode == "<" and e_.children[1].intval() == 0 and rejects(n, "T"):
+                            miss_ok = True
         else:
             e = missing_node.ast.strip() if missing_node is not None else None
             lab = None
